@@ -45,8 +45,20 @@ Print Assumptions C10_failed_op_restores.
    countMissingRevs arithmetic with a non-zero count), every retain >= 2, any in-use answer, any failure position j (also
    after the last task): the result is the state before `minus` exactly the revisions of the discard-snap tasks among the
    first j tasks (their kept entries, mounts and RevertStatus marks go; current, active, channel, flags, times,
-   configuration, link and the ORDER of the others are as before).  Still `_partial` only because of cfg_guard (finding 13)
-   and retain >= 2 (configuration accepts 2..20); install and revert changes have no discards. *)
+   configuration, link and the ORDER of the others are as before).  Install and revert changes have no discards.
+   EXACTLY what the statement excludes, and why it keeps the `_partial` label:
+     (1) retain < 2 — outside the values configcore accepts (2..20);
+     (2) cfg_guard o s false, i.e. the snap has NO configuration (cfg s = 0, installed) AND (the configure hook of this
+         operation writes configuration (ohookcfg o <> 0), OR a stale revision-config snapshot exists for the current
+         revision).  The first alternative contains the recorded finding config-from-nothing, but is wider than the class
+         `classify` keys: classify requires the configure hook to have COMPLETED before the failure (and the observed
+         configuration to be the hook's value), cfg_guard excludes the operation whatever the failure position; the second
+         alternative (a snapshot for the current revision while there is no configuration) is believed unreachable — every
+         path that empties the configuration also discards the snapshots, which monitor11 checks on the real code after every
+         settled change — but that is not an invariant proved here.
+   The other recorded finding, fail-after-discard, is not excluded: it IS the conclusion (D non-empty).  Removing `_partial`
+   needs the guard refined to the failure position (configure hook among the first j tasks) and the invariant
+   `cfg = 0 -> no snapshots`; not done. *)
 Theorem C10_failed_after_gc_partial : forall (s : st) (o : op) (j : nat) (retain : Z) (inuse : N -> bool),
   wf s -> okind o = ORefresh -> accepts o s = true -> (2 <= retain)%Z -> cfg_guard o s ->
   forget (run_change o (S j) (tasks_for o s retain inuse) s)
